@@ -410,6 +410,15 @@ pub fn conc_configs(prop: &str, thorough: bool) -> Vec<SimConfig> {
         }
         ("C06", false) => pick(&["n2-host"]),
         ("C06", true) => pick(&["n2-host", "n2-scheme", "n2-port", "n2-wss-vs-https"]),
+        ("C14", _) => {
+            // also park inside critical sections (right after the pool mutex is taken): code that only TRIES the
+            // lock sees it held. HTTP/2 only, abandoned attempts continue in the background
+            let mut c = SimConfig::base("n2-h2-held-yields");
+            c.allow_h1 = false;
+            c.ev_dial_fail = false;
+            c.ev_close = false;
+            vec![c]
+        }
         ("C15", _) => {
             let mut v = if thorough { pick(&["burst-k2-max1-close", "mixed-n2-max1", "burst-k3-max1", "burst-k3-max2"]) } else { pick(&["burst-k2-max1-close"]) };
             // THREE overlapping operations: the search starts with two idle connections and two finished requests
